@@ -5,6 +5,7 @@ mod absdev;
 mod apidrv;
 mod cachedrv;
 mod concdrv;
+mod coorddrv;
 mod crashdrv;
 mod damagedrv;
 mod fsm;
@@ -68,6 +69,7 @@ fn main() {
         "cache" => cachedrv::main(rest),
         "crash" => crashdrv::main(rest),
         "conc" => concdrv::main(rest),
+        "coord" => coorddrv::main(rest),
         "images" => imgdrv::main(rest),
         "migrate" => migdrv::main(rest),
         "recover" => crashdrv::recover_main(rest),
